@@ -6,8 +6,8 @@ from mc.chartgen import skeletons, flatten, add_scheme_S, describe, has_variant
 
 PLAN = {
     # (nmin, nmax, k, eventless twins)
-    'quick': [(2, 4, 2, True), (2, 4, 2, 'internal'), (5, 5, 2, False), (5, 6, '3o', False)],
-    'thorough': [(2, 4, 3, 'both'), (5, 5, 2, 'both'), (5, 6, 3, False), (7, 7, '3o', False)],
+    'quick': [(2, 4, 2, True), (2, 4, 2, 'internal'), (2, 4, 2, 'delayed'), (5, 5, 2, False), (5, 6, '3o', False)],
+    'thorough': [(2, 4, 3, 'both'), (2, 5, 2, 'delayed'), (5, 5, 2, 'both'), (5, 6, 3, False), (7, 7, '3o', False)],
 }
 
 
@@ -19,7 +19,9 @@ def make_spec(task):
 
 def work(task):
     spec = make_spec(task)
-    res = engine.explore(spec, task[3], [engine.oracle_conflict], extra_ops=True)
+    R = engine.Runner(spec)
+    R.delayed_event = task[4] == 'delayed'
+    res = engine.explore(spec, task[3], [engine.oracle_conflict], extra_ops=True, runner=R)
     res['desc'] = describe(spec)
     res['task'] = task
     return res
